@@ -270,6 +270,20 @@ def run(case, ctx):
     if not all_matched:
         out.label('some-example-unmatched(C03)')
 
+    if n_uniq % 2 == 0 and x.results:
+        # a history: other read-only questions are put to the object first
+        # (which examples each expression matches; the figures, once)
+        import io as _io
+        import sys as _sys
+        so = _sys.stdout
+        _sys.stdout = _io.StringIO()
+        try:
+            call(x.pattern_matches)
+            call(x.coverage, True)
+            call(x.incremental_coverage, False)
+        finally:
+            _sys.stdout = so
+        out.label('history:queried-before')
     # n_examples
     for dedup in (False, True):
         ok, n = call(x.n_examples, dedup)
